@@ -147,7 +147,11 @@ func vAssert(c bool, msg string) {
 }
 
 func vReach(label string)                {}
-func vNote(key string, v interface{})   {}
+func vNote(key string, v interface{}) {
+	if strings.HasPrefix(key, "self:") {
+		vSayf("REPLAY-SELF: %s=%v\n", strings.TrimPrefix(key, "self:"), v)
+	}
+}
 func vSample(key string, v interface{}) {}
 
 func vTry(f func()) (panicked bool) {
